@@ -229,6 +229,16 @@ def encodeCRC (F : Faults) (e : Enc) : Enc × Bool :=
   let e' := { e with w := r.1, n := e.n + r.2.1 }
   if r.2.2 then ({ e' with crc := 0 }, true) else (e', false)
 
+/-- the `io.WriteSeeker` branch of `updateFileHeader`: seek back over the encoder's own `size` bytes, write the
+header, seek forward to where the writer was -/
+def W.rewriteSeek (F : Faults) (w : W) (b : Bytes) (size : Int) : W × Bool :=
+  let s1 := w.seekCur F (-size)
+  if !s1.2 then s1
+  else
+    let r := s1.1.write F b
+    if !r.2.2 then (r.1, false)
+    else r.1.seekCur F (size - r.2.1)
+
 /-- `updateFileHeader`; `hdrDs` is the `DataSize` the header value holds. Gives the header's `DataSize` afterwards. -/
 def updateFileHeader (F : Faults) (e : Enc) (h : Hdr) (hdrDs : Nat) : Enc × Nat × Bool :=
   if hdrDs = e.dataSize then (e, hdrDs, true)
@@ -236,15 +246,8 @@ def updateFileHeader (F : Faults) (e : Enc) (h : Hdr) (hdrDs : Nat) : Enc × Nat
     let b := hdrBytesFrom e.crc h e.dataSize
     let e := { e with crc := if h.size = 14 then 0 else e.crc }
     if e.w.kind.seeker then
-      let size : Int := (e.n : Int) - e.lastHdrPos
-      let s1 := e.w.seekCur F (-size)
-      if !s1.2 then ({ e with w := s1.1 }, e.dataSize, false)
-      else
-        let r := s1.1.write F b
-        if !r.2.2 then ({ e with w := r.1 }, e.dataSize, false)
-        else
-          let s2 := r.1.seekCur F (size - r.2.1)
-          ({ e with w := s2.1 }, e.dataSize, s2.2)
+      let r := e.w.rewriteSeek F b ((e.n : Int) - e.lastHdrPos)
+      ({ e with w := r.1 }, e.dataSize, r.2)
     else if e.w.kind = .at then
       let r := e.w.writeAt F b e.lastHdrPos
       ({ e with w := r.1 }, e.dataSize, r.2)
@@ -289,13 +292,17 @@ def dryPass (o : Opts) : EncState → Nat → List WMsg → Nat × List WMsg
 
 /-! #### the two strategies and `Encode` -/
 
-/-- `encodeWithDirectUpdateStrategy`; `ds0` is the `DataSize` of the caller's header -/
-def encodeDirect (F : Faults) (o : Opts) (e : Enc) (h : Hdr) (ds0 : Nat) (ms : List WMsg) : Enc × Bool :=
-  let r1 := encodeFileHeader F e h ds0
+/-- the part the two strategies share: `encodeFileHeader`, `encodeMessages`, `encodeCRC`, each result checked -/
+def encodeBody (F : Faults) (o : Opts) (e : Enc) (h : Hdr) (ds : Nat) (ms : List WMsg) : Enc × Bool :=
+  let r1 := encodeFileHeader F e h ds
   if !r1.2 then r1 else
   let r2 := encodeMessages F o r1.1 ms
   if !r2.2 then r2 else
-  let r3 := encodeCRC F r2.1
+  encodeCRC F r2.1
+
+/-- `encodeWithDirectUpdateStrategy`; `ds0` is the `DataSize` of the caller's header -/
+def encodeDirect (F : Faults) (o : Opts) (e : Enc) (h : Hdr) (ds0 : Nat) (ms : List WMsg) : Enc × Bool :=
+  let r3 := encodeBody F o e h ds0 ms
   if !r3.2 then r3 else
   let r4 := updateFileHeader F r3.1 h ds0
   (r4.1, r4.2.2)
@@ -304,11 +311,7 @@ def encodeDirect (F : Faults) (o : Opts) (e : Enc) (h : Hdr) (ds0 : Nat) (ms : L
 def encodeEarly (F : Faults) (o : Opts) (e : Enc) (h : Hdr) (ms : List WMsg) : Enc × Bool :=
   let dry := dryPass o e.es e.dataSize ms
   let e := e.reset o                       -- `calculateDataSize` ends with `e.reset()`; `e.n`, `e.w` restored
-  let r1 := encodeFileHeader F e h dry.1
-  if !r1.2 then r1 else
-  let r2 := encodeMessages F o r1.1 dry.2
-  if !r2.2 then r2 else
-  encodeCRC F r2.1
+  encodeBody F o e h dry.1 dry.2
 
 /-- a FIT value as `Encode` takes it after validation: normalised header, the caller's `DataSize`, messages -/
 structure FitIn where
